@@ -89,6 +89,14 @@ Unspell(s) ==
       a |-> Count(s, SHARP) - Count(s, FLAT),
       o |-> IF IsLower(s[1]) THEN 3 + n ELSE 4 - n]
 
+(* ------------- American notation, semitone distance, ordering (not covered by a listed property) ------------- *)
+RECURSIVE DigitsOf(_)
+DigitsOf(n) == IF n < 10 THEN <<48 + n>> ELSE DigitsOf(n \div 10) \o <<48 + (n % 10)>>
+IntCps(n) == IF n < 0 THEN <<45>> \o DigitsOf(-n) ELSE DigitsOf(n)
+AmericanSpell(p) == <<UpperCp[p.l + 1]>> \o (IF p.a > 0 THEN Rep(SHARP, p.a) ELSE Rep(98, -p.a)) \o IntCps(p.o)      \* C#4, Bb3
+Distance(p, q) == Midi(q) - Midi(p)                                   \* semitones from p up to q
+PitchLess(p, q) == p.o < q.o \/ (p.o = q.o /\ Base[p.l + 1] + p.a < Base[q.l + 1] + q.a)       \* octave first, then base-40 chroma
+
 (* -------------------- agnostic (staff position) spelling ---------------- *)
 \* bottom-line pitch per clef: the table pinned by the repository's passing tests (DESIGN.md, I4)
 ClefKinds == {"G2", "F3", "F4", "C1", "C2", "C3", "C4"}
